@@ -14,14 +14,14 @@ def s1 : SymRef := ⟨1, false⟩
 def tStr : Nat := 100
 def tInt : Nat := 101
 /-- `class K0: def __init__(self)` -/
-def f0 : Factory := ⟨0, some 0, []⟩
+def f0 : Factory := ⟨0, 0, []⟩
 /-- `class K15` without `__init__` -/
-def f15 : Factory := ⟨15, some 10, []⟩
-/-- two closures of one `def clo(x: T_)`: same qualified name, annotations `S0` / `S1` -/
-def f8 : Factory := ⟨8, some 6, [some s0]⟩
-def f9 : Factory := ⟨9, some 6, [some s1]⟩
+def f15 : Factory := ⟨15, 15, []⟩
+/-- two closures of one `def clo(x: T_)`: same qualified name, two function objects, annotations `S0` / `S1` -/
+def f8 : Factory := ⟨8, 8, [some s0]⟩
+def f9 : Factory := ⟨9, 9, [some s1]⟩
 /-- `def fn18(s: str)` -/
-def f18 : Factory := ⟨18, some 13, [some ⟨tStr, false⟩]⟩
+def f18 : Factory := ⟨18, 18, [some ⟨tStr, false⟩]⟩
 
 /-- Forward simulation: from every reachable state, every op changes the abstract state exactly as `specStep`
     prescribes and produces the same output. -/
@@ -94,36 +94,10 @@ example :
       = .obj ⟨1, 15, []⟩ := by decide
 
 /-- `combine a b`: for every symbol the result holds `b`'s entry (binding *and* instance) if `b` can resolve it,
-    otherwise `a`'s. -/
-def combine_right_statement : Prop :=
-  ∀ (fuel : Nat) (ops : List Op) (a b k : Nat),
-    (step fuel (run fuel State.init ops).1 (.combine a b)).2 = .cont k →
-    ∀ s, look (abs (step fuel (run fuel State.init ops).1 (.combine a b)).1) k s =
-      preferRight (look (abs (run fuel State.init ops).1) a s) (look (abs (run fuel State.init ops).1) b s)
-
-/-- FALSE on the pinned code, first way (plain DI): `b` binds the symbol without having resolved it, `a` has an
-    instance — the result pairs `b`'s factory with `a`'s instance (`{**a.instances, **b.instances}`, di.py:249). -/
-theorem combine_right_counterexample : ¬ combine_right_statement := by
-  intro h
-  have := h 5 [.newDI, .on 0 (.bind s0 f0), .on 0 (.resolve s0), .newDI, .on 1 (.bind s0 f15)] 0 1 2 (by decide) 0
-  revert this
-  decide
-
-/-- FALSE, second way (LazyDI): `b` only *defines* the symbol (never resolved), `a` has materialised it — `a`'s binding
-    and instance survive, because the base registry of `a` is consulted before the merged definitions (di.py:371). -/
-theorem combine_right_lazy_counterexample : ¬ combine_right_statement := by
-  intro h
-  have := h 5 [.newLazy [(0, .direct f0)], .on 0 (.resolve s0), .newLazy [(0, .named 12 f15)]] 0 1 2 (by decide) 0
-  revert this
-  decide
-
-/-- The right operand wins whenever the left operand holds no instance for a symbol `b` binds without instance, and no
-    materialised binding for a symbol `b` only defines (e.g. disjoint symbol sets, as in providers/syntax/entrypoints.py,
-    or a left operand that was never resolved, or a right operand that resolved everything it binds). -/
-theorem combine_right_partial (fuel : Nat) (ops : List Op) (a b k : Nat)
-    (hk : (step fuel (run fuel State.init ops).1 (.combine a b)).2 = .cont k)
-    (hns : ∀ s ea eb, look (abs (run fuel State.init ops).1) a s = some ea → look (abs (run fuel State.init ops).1) b s = some eb →
-      (eb.lazy = true → ea.lazy = true) ∧ (eb.lazy = false → eb.inst = none → ea.inst = none)) :
+    otherwise `a`'s — for every history (repaired by 6d5a231; before, a left instance / a left materialised binding
+    could survive). -/
+theorem combine_right (fuel : Nat) (ops : List Op) (a b k : Nat)
+    (hk : (step fuel (run fuel State.init ops).1 (.combine a b)).2 = .cont k) :
     ∀ s, look (abs (step fuel (run fuel State.init ops).1 (.combine a b)).1) k s =
       preferRight (look (abs (run fuel State.init ops).1) a s) (look (abs (run fuel State.init ops).1) b s) := by
   have w0 := reach_wf fuel ops
@@ -132,19 +106,22 @@ theorem combine_right_partial (fuel : Nat) (ops : List Op) (a b k : Nat)
   obtain ⟨sa, sb, ha, hb, hl⟩ := specStep_combine_look fuel _ a b k hk
   intro s
   rw [hl s]
-  have la : look (abs (run fuel State.init ops).1) a s = sa.ents s := by simp [look, ha]
-  have lb : look (abs (run fuel State.init ops).1) b s = sb.ents s := by simp [look, hb]
-  rw [la, lb]
-  apply combineEnt_right
-  intro le re h1 h2
-  exact hns s le re (by rw [la, h1]) (by rw [lb, h2])
+  simp [look, ha, hb]
 
+/-- regression witness 1 (plain DI, corpus/C19/combine-left-instance.json): `b` binds the symbol without having resolved
+    it, `a` has an instance — the result holds `b`'s binding *without* instance -/
 example :
-    let ops : List Op := [.newDI, .on 0 (.bind s0 f0), .on 0 (.resolve s0), .newDI, .on 1 (.bind s0 f15), .on 1 (.resolve s0),
-      .on 1 (.bind s1 f0)]
+    let ops : List Op := [.newDI, .on 0 (.bind s0 f0), .on 0 (.resolve s0), .newDI, .on 1 (.bind s0 f15)]
     (step 5 (run 5 State.init ops).1 (.combine 0 1)).2 = .cont 2 ∧
-    look (abs (step 5 (run 5 State.init ops).1 (.combine 0 1)).1) 2 0 = some ⟨.direct f15, false, some ⟨1, 15, []⟩⟩ ∧
-    look (abs (step 5 (run 5 State.init ops).1 (.combine 0 1)).1) 2 1 = some ⟨.direct f0, false, none⟩ := by decide
+    look (abs (step 5 (run 5 State.init ops).1 (.combine 0 1)).1) 2 0 = some ⟨.direct f15, false, none⟩ := by decide
+
+/-- regression witness 2 (LazyDI, corpus/C19/combine-left-materialised-vs-right-lazy.json): `b` only defines the symbol,
+    `a` has materialised it — the result holds `b`'s unresolved definition -/
+example :
+    let ops : List Op := [.newLazy [(0, .direct f0)], .on 0 (.resolve s0), .newLazy [(0, .named 12 f15)]]
+    (step 5 (run 5 State.init ops).1 (.combine 0 1)).2 = .cont 2 ∧
+    look (abs (step 5 (run 5 State.init ops).1 (.combine 0 1)).1) 2 0 = some ⟨.named 12 f15, true, none⟩ ∧
+    (step 5 (step 5 (run 5 State.init ops).1 (.combine 0 1)).1 (.on 2 (.resolve s0))).2 = .obj ⟨1, 15, []⟩ := by decide
 
 /-- Frame: an op leaves every container it is not addressed to exactly as it was — in particular the operands of
     `combine` / `_clone` keep behaving as before whatever is done to the result, and vice versa. (The model has value
@@ -205,113 +182,74 @@ theorem unknown (fuel : Nat) (pre : List Op) (c : Nat) (r : SymRef)
 
 example : (step 1 (run 1 State.init [.newLazy [(1, .direct f0)]]).1 (.on 0 (.can s0))).2 = .bool false := by decide
 
-/-- ... and `invoke` of a factory whose first annotated parameter cannot be resolved, without remaining arguments, raises
-    ValueError on the first call for its qualified name (in any state, reachable or not). -/
-theorem unknown_invoke (fuel : Nat) (σ : State) (c : Nat) (k : Cont) (f : Factory) (q : Nat) (a : SymRef) (rest : List SymRef)
-    (hk : σ.conts[c]? = some k) (hq : f.qual = some q) (hm : k.invocations.get? q = none)
-    (hp : pluck f = a :: rest) (hc : k.canResolve a = false) :
-    (step fuel σ (.on c (.invoke f []))).2 = .err .valueError := by
-  have hc1 : Cont.canResolve { k with invocations := k.invocations.set q (a :: rest) } a = false := by
-    simpa [Cont.canResolve, Cont.defined, Cont.innerBinded] using hc
-  simp [step, hk, stepCont, invokeF, invokeWith, hq, hm, annosFor, hp, curryWith, hc1, assertInvoke, countAllow, outObj]
+/-- ... and `invoke` of a factory whose first annotated parameter cannot be resolved, without remaining arguments,
+    raises ValueError — on every call. -/
+theorem unknown_invoke (fuel : Nat) (pre : List Op) (c : Nat) (f : Factory) (a : SymRef) (rest : List SymRef)
+    (hp : pluck f = a :: rest)
+    (hc : (step fuel (run fuel State.init pre).1 (.on c (.can a))).2 = .bool false) :
+    (step fuel (run fuel State.init pre).1 (.on c (.invoke f []))).2 = .err .valueError := by
+  have w0 := reach_wf fuel pre
+  rw [step_out w0] at hc ⊢
+  simp only [specStep] at hc ⊢
+  cases hk : (abs (run fuel State.init pre).1).conts[c]? with
+  | none => simp [hk] at hc
+  | some sc =>
+    simp only [hk, sStepCont, Out.bool.injEq] at hc ⊢
+    simp [sInvokeF, sInvokeFill, hp, sCurryWith, hc, validateFill, outObj]
 
 example :
-    let σ := (run 3 State.init [.newDI]).1
-    σ.conts[0]? = some { lazy := false } ∧ f18.qual = some 13 ∧ pluck f18 = [⟨tStr, false⟩] ∧
-    (step 3 σ (.on 0 (.invoke f18 []))).2 = .err .valueError := by decide
+    pluck f18 = [⟨tStr, false⟩] ∧
+    (step 3 (run 3 State.init [.newDI, .on 0 (.invoke f18 [⟨1, tStr⟩])]).1 (.on 0 (.can ⟨tStr, false⟩))).2 = .bool false ∧
+    (step 3 (run 3 State.init [.newDI, .on 0 (.invoke f18 [⟨1, tStr⟩])]).1 (.on 0 (.invoke f18 []))).2 = .err .valueError := by
+  decide
 
-/-- The invoke law: `invoke(factory, *args)` curries exactly the leading resolvable annotated parameters of the factory
-    itself, raises ValueError unless the remaining arguments match the remaining annotated parameters one to one, and
-    otherwise calls the factory (`fillStep`). -/
-def invoke_fill_statement : Prop :=
-  ∀ (fuel : Nat) (ops : List Op) (c : Nat) (f : Factory) (args : List Arg),
+/-- The invoke law, for every history: `invoke(factory, *args)` curries exactly the leading resolvable annotated
+    parameters of the factory itself, raises ValueError unless the remaining arguments match the remaining annotated
+    parameters one to one, and otherwise calls the factory (`fillStep` / `sInvokeFill`). The annotation cache of the code
+    is invisible (repaired by c3fd82c; before, the cache was keyed by the qualified name, validation ran once per name,
+    and surplus arguments raised IndexError). -/
+theorem invoke_fill (fuel : Nat) (ops : List Op) (c : Nat) (f : Factory) (args : List Arg) :
     (abs (step fuel (run fuel State.init ops).1 (.on c (.invoke f args))).1,
       (step fuel (run fuel State.init ops).1 (.on c (.invoke f args))).2)
-    = fillStep fuel (abs (run fuel State.init ops).1) c f args
-
-/-- FALSE, first way: the annotation cache is keyed by the qualified name (di.py:157-163), so the second closure of
-    one `def` is curried with the first closure's annotations (here: with the instance of `S0` instead of `S1`). -/
-theorem invoke_alias_counterexample : ¬ invoke_fill_statement := by
-  intro h
-  have := congrArg Prod.snd
-    (h 5 [.newDI, .on 0 (.bind s0 f0), .on 0 (.bind s1 f15), .on 0 (.invoke f8 [])] 0 f9 [])
-  revert this
-  decide
-
-/-- FALSE, second way: the signature check runs only on the first call per qualified name (di.py:171), so a later
-    mismatched call (an `int` for `s: str`) returns an object instead of raising ValueError. -/
-theorem invoke_second_counterexample : ¬ invoke_fill_statement := by
-  intro h
-  have := congrArg Prod.snd (h 5 [.newDI, .on 0 (.invoke f18 [⟨1, tStr⟩])] 0 f18 [⟨2, tInt⟩])
-  revert this
-  decide
-
-/-- FALSE, third way: more remaining arguments than unresolved annotated parameters raise IndexError
-    (`expect_types[index]`, di.py:215) instead of ValueError. -/
-theorem invoke_extra_counterexample : ¬ invoke_fill_statement := by
-  intro h
-  have := congrArg Prod.snd (h 5 [.newDI] 0 f18 [⟨1, tStr⟩, ⟨2, tStr⟩])
-  revert this
-  decide
-
-/-- The law holds for histories whose factories agree on their annotations per qualified name (`Coherent`), on every
-    call for which the law does not demand ValueError (matching arities and classes) — and, ValueError included, on the
-    first call per qualified name unless the code raises IndexError (surplus arguments). -/
-theorem invoke_fill_partial (fuel : Nat) (ops : List Op) (c : Nat) (f : Factory) (args : List Arg) (fs : List Factory)
-    (hco : Coherent fs) (hops : ∀ op ∈ ops, ∀ g ∈ op.facs, g ∈ fs) (hf : f ∈ fs) :
-    ((fillStep fuel (abs (run fuel State.init ops).1) c f args).2 ≠ .err .valueError →
-      (abs (step fuel (run fuel State.init ops).1 (.on c (.invoke f args))).1,
-        (step fuel (run fuel State.init ops).1 (.on c (.invoke f args))).2)
-      = fillStep fuel (abs (run fuel State.init ops).1) c f args) ∧
-    ((∀ sc q, (abs (run fuel State.init ops).1).conts[c]? = some sc → f.qual = some q → sc.memo q = none) →
-      (step fuel (run fuel State.init ops).1 (.on c (.invoke f args))).2 ≠ .err .indexError →
-      (abs (step fuel (run fuel State.init ops).1 (.on c (.invoke f args))).1,
-        (step fuel (run fuel State.init ops).1 (.on c (.invoke f args))).2)
-      = fillStep fuel (abs (run fuel State.init ops).1) c f args) := by
+    = fillStep fuel (abs (run fuel State.init ops).1) c f args := by
   have w0 := reach_wf fuel ops
-  have hg : SGood fs (abs (run fuel State.init ops).1) := by
-    rw [run_abs init_wf]
-    exact specRun_good hco fuel ops _ hops (init_good fs)
-  obtain ⟨hA, hB⟩ := spec_invoke_fill fuel _ c f args fs hg hf
   rw [← (step_ok fuel _ (.on c (.invoke f args)) w0).2]
-  exact ⟨hA, fun hm hne => hB hm (by rw [← step_out w0]; exact hne)⟩
+  exact spec_invoke_fill fuel _ c f args
 
-/-- non-vacuity: a coherent universe (`f8` and `f18`; `f8`/`f9` together would not be), a history over it, a valid call:
-    the law gives an object, and the hypotheses of both parts hold -/
+/-- regression witness 1 (corpus/C19/invoke-qualname-alias.json): the second closure of one `def` is curried with the
+    instance of *its own* annotation `S1` (object 2), not with the first closure's `S0` (object 0) -/
 example :
-    let fs : List Factory := [f0, f8, f18]
-    let ops : List Op := [.newDI, .on 0 (.bind s0 f0), .on 0 (.invoke f18 [⟨1, tStr⟩])]
-    (∀ op ∈ ops, ∀ g ∈ op.facs, g ∈ fs) ∧
-    (fillStep 5 (abs (run 5 State.init ops).1) 0 f8 []).2 = .obj ⟨2, 8, [.inst 1]⟩ ∧
-    (step 5 (run 5 State.init ops).1 (.on 0 (.invoke f8 []))).2 = .obj ⟨2, 8, [.inst 1]⟩ := by decide
+    (run 5 State.init [.newDI, .on 0 (.bind s0 f0), .on 0 (.bind s1 f15), .on 0 (.invoke f8 []), .on 0 (.invoke f9 [])]).2
+      = [.cont 0, .ok, .ok, .obj ⟨1, 8, [.inst 0]⟩, .obj ⟨3, 9, [.inst 2]⟩] := by decide
 
-example : Coherent [f0, f8, f18] := by
-  intro f hf g hg q h1 h2
-  simp only [List.mem_cons, List.mem_nil_iff, or_false] at hf hg
-  rcases hf with rfl | rfl | rfl <;> rcases hg with rfl | rfl | rfl <;> first | rfl | (simp [f0, f8, f18] at h1 h2; omega)
+/-- regression witness 2 (corpus/C19/invoke-second-call-unchecked.json): a later mismatched call raises ValueError -/
+example :
+    (run 5 State.init [.newDI, .on 0 (.invoke f18 [⟨1, tStr⟩]), .on 0 (.invoke f18 [⟨2, tInt⟩])]).2
+      = [.cont 0, .obj ⟨0, 18, [.ext 1]⟩, .err .valueError] := by decide
+
+/-- regression witness 3 (corpus/C19/invoke-surplus-args-indexerror.json): surplus arguments raise ValueError -/
+example :
+    (run 5 State.init [.newDI, .on 0 (.invoke f18 [⟨1, tStr⟩, ⟨2, tStr⟩])]).2 = [.cont 0, .err .valueError] := by decide
 
 /-- Fuel is only a device: when the bindings of the history respect a rank (every annotated parameter of a factory
     bound to `s` ranks below `s` — an acyclic factory graph), resolution with more fuel than the rank of the symbol never
-    runs out of fuel, i.e. RecursionError cannot occur (for histories whose factories agree on annotations per qualified
-    name; a stale alias could otherwise send a factory to foreign parameters). Cyclic graphs are RecursionError in model
-    and code alike (correspondence, corpus/C19/cycle-recursion.json). -/
-theorem fuel_sufficient (fuel : Nat) (ops : List Op) (c : Nat) (fs : List Factory) (rk : Nat → Nat)
-    (hco : Coherent fs) (hops : ∀ op ∈ ops, ∀ g ∈ op.facs, g ∈ fs) (hrk : ∀ op ∈ ops, op.BindsP (RankP rk)) :
+    runs out of fuel, i.e. RecursionError cannot occur. Cyclic graphs are RecursionError in model and code alike
+    (correspondence, corpus/C19/cycle-recursion.json). -/
+theorem fuel_sufficient (fuel : Nat) (ops : List Op) (c : Nat) (rk : Nat → Nat)
+    (hrk : ∀ op ∈ ops, op.BindsP (RankP rk)) :
     (∀ r, rk r.accept < fuel →
       (step fuel (run fuel State.init ops).1 (.on c (.resolve r))).2 ≠ .err .recursionError) ∧
-    (∀ f args, f ∈ fs → (∀ a ∈ pluck f, rk a.accept < fuel) →
+    (∀ f args, (∀ a ∈ pluck f, rk a.accept < fuel) →
       (step fuel (run fuel State.init ops).1 (.on c (.invoke f args))).2 ≠ .err .recursionError) := by
   have w0 := reach_wf fuel ops
-  have hg : SGood fs (abs (run fuel State.init ops).1) := by
-    rw [run_abs init_wf]; exact specRun_good hco fuel ops _ hops (init_good fs)
   have hp : SEntsP (RankP rk) (abs (run fuel State.init ops).1) := by
     rw [run_abs init_wf]; exact specRun_entsP fuel ops _ hrk (init_entsP _)
-  obtain ⟨h1, h2⟩ := spec_fuel_sufficient fuel _ c fs rk hco hg hp
-  exact ⟨fun r hr => by rw [step_out w0]; exact h1 r hr, fun f args hf hr => by rw [step_out w0]; exact h2 f args hf hr⟩
+  obtain ⟨h1, h2⟩ := spec_fuel_sufficient fuel _ c rk hp
+  exact ⟨fun r hr => by rw [step_out w0]; exact h1 r hr, fun f args hr => by rw [step_out w0]; exact h2 f args hr⟩
 
 /-- non-vacuity: `S1 ↦ K1(a: S0)`, `S0 ↦ K0()` is ranked by `rk s = s`; fuel 2 > rk S1 resolves, fuel 1 does not -/
 example :
-    let k1 : Factory := ⟨1, some 1, [some s0]⟩
+    let k1 : Factory := ⟨1, 1, [some s0]⟩
     let ops : List Op := [.newDI, .on 0 (.bind s1 k1), .on 0 (.bind s0 f0)]
     (∀ op ∈ ops, op.BindsP (RankP (fun s => s))) ∧
     (step 2 (run 2 State.init ops).1 (.on 0 (.resolve s1))).2 = .obj ⟨1, 1, [.inst 0]⟩ ∧
@@ -321,7 +259,7 @@ example :
   simp only [List.mem_cons, List.mem_nil_iff, or_false] at hop
   rcases hop with rfl | rfl | rfl
   · trivial
-  · intro a ha; simp [pluck, s0] at ha; subst ha; decide
-  · intro a ha; simp [pluck, f0] at ha
+  · intro a ha; simp [pluck, pluckA, Factory.annotated, s0] at ha; subst ha; decide
+  · intro a ha; simp [pluck, pluckA, Factory.annotated, f0] at ha
 
 end Tranp.C19
